@@ -149,7 +149,8 @@ impl AccessModel for DeltaModel {
 }
 
 fn fname(i: usize) -> String {
-    format!("f{}", i)
+    // names whose alphabetical order differs from their order in the state vector
+    format!("{}{}", ["q", "c", "x", "a", "m", "z", "b", "k"][i % 8], i)
 }
 
 fn state_model(n: usize) -> Arc<StateModel> {
